@@ -165,6 +165,12 @@ def run_property(prop, tier, seed):
         write_evidence(mod, prop, tier, seed, agg, t0, [], {}, machinery=True)
         return 2
 
+    if os.environ.get("VERIF_DEBUG"):
+        os.makedirs(os.path.join(VERIF, ".work"), exist_ok=True)
+        with open(os.path.join(VERIF, ".work", prop + ".failures.jsonl"), "w") as fh:
+            for case, f in agg["failures"]:
+                fh.write(json.dumps({"case": case, "failure": f}, default=str) + "\n")
+
     # --- triage
     explained = collections.OrderedDict()
     violations = []
